@@ -117,3 +117,65 @@ pub fn pin_all() -> (u64, Vec<String>) {
     run!(frost_ed448::Ed448Shake256, "frost-ed448");
     (total, fails)
 }
+
+// ------------------------------------------------------------------ Taproot
+
+fn hx<const N: usize>(s: &str) -> [u8; N] {
+    let v: Vec<u8> = (0..s.len() / 2).map(|i| u8::from_str_radix(&s[2 * i..2 * i + 2], 16).unwrap()).collect();
+    let mut o = [0u8; N];
+    o.copy_from_slice(&v);
+    o
+}
+
+/// The Taproot reference of scen-tr against (a) the repository's frost-secp256k1-tr vector,
+/// (b) BIP-340 test vector 0, (c) the first BIP-341 wallet vector (key-path only output key).
+pub fn pin_tr() -> (usize, Vec<String>) {
+    let mut n = 0usize;
+    let mut bad = vec![];
+    let path = "/repo/frost-secp256k1-tr/tests/helpers/vectors.json";
+    let v: serde_json::Value = match std::fs::read_to_string(path).ok().and_then(|s| serde_json::from_str(&s).ok()) {
+        Some(v) => v,
+        None => return (0, vec![format!("cannot read {path}")]),
+    };
+    let s = |x: &serde_json::Value| x.as_str().unwrap_or("").to_string();
+    let gk: [u8; 33] = hx(&s(&v["inputs"]["verifying_key_key"]));
+    let msg: Vec<u8> = {
+        let m = s(&v["inputs"]["message"]);
+        (0..m.len() / 2).map(|i| u8::from_str_radix(&m[2 * i..2 * i + 2], 16).unwrap()).collect()
+    };
+    let mut signers = vec![];
+    for o in v["round_one_outputs"]["outputs"].as_array().unwrap() {
+        let id = o["identifier"].as_u64().unwrap() as u16;
+        let share = v["inputs"]["participant_shares"].as_array().unwrap().iter().find(|p| p["identifier"].as_u64() == Some(id as u64)).map(|p| s(&p["participant_share"])).unwrap();
+        let want_share = v["round_two_outputs"]["outputs"].as_array().unwrap().iter().find(|p| p["identifier"].as_u64() == Some(id as u64)).map(|p| s(&p["sig_share"])).unwrap();
+        signers.push(scen_tr::PinSigner {
+            id,
+            share: hx(&share),
+            hiding: hx(&s(&o["hiding_nonce"])),
+            binding: hx(&s(&o["binding_nonce"])),
+            hiding_c: hx(&s(&o["hiding_nonce_commitment"])),
+            binding_c: hx(&s(&o["binding_nonce_commitment"])),
+            want_bf: hx(&s(&o["binding_factor"])),
+            want_share: hx(&want_share),
+        });
+    }
+    let sig: [u8; 64] = hx(&s(&v["final_output"]["sig"]));
+    let (k, b) = scen_tr::pin_reference(&gk, &msg, &signers, &sig);
+    n += k;
+    bad.extend(b);
+    // BIP-340 test vector 0 (secret key 3, all-zero message and auxiliary randomness)
+    let pk: [u8; 32] = hx("F9308A019258C31049344F85F89D5229B531C845836F99B08601F113BCE036F9");
+    let sig0: [u8; 64] = hx("E907831F80848D1069A5371B402410364BDF1C5F8307B0084C55F1CE2DCA821525F66A4A85EA8B71E482A74F382D2CE5EBEEE8FDB2172F477DF4900D310536C0");
+    n += 1;
+    if !scen_tr::bip340_accepts(&pk, &[0u8; 32], &sig0) {
+        bad.push("BIP-340 test vector 0 is rejected by the verifier transcription".into());
+    }
+    // BIP-341 wallet test vector 1: internal key, no script tree
+    let internal: [u8; 32] = hx("d6889cb081036e0faefa3a35157ad71086b123b2b144b649798b494c300a961d");
+    let want: [u8; 32] = hx("53a1f6e454df1aa2776a2814a721372d6258050de330b3c6d10ee8f4e0dda343");
+    n += 1;
+    if scen_tr::bip341_output_x(&internal, b"") != Some(want) {
+        bad.push("BIP-341 wallet vector 1 (key-path-only output key)".into());
+    }
+    (n, bad)
+}
